@@ -27,7 +27,7 @@ Float gv_d0;     /* ghost: diagonal element of row gv_k0 as the scaling pass rea
 
 #define CVP_STDMAX(a, b) ((a) < (b) ? (b) : (a))   /* std::max(a,b): "if (a < b) return b; return a;" */
 #define CVP_STDMIN(a, b) ((b) < (a) ? (b) : (a))   /* std::min(a,b): "if (b < a) return b; return a;" */
-#define TAB(r) (cvp_rowoff[r])
+#define TAB(r) ((long)cvp_rowoff[r])
 #define REP(A) ((A)->base.mem.rep)
 
 /* Exclusion predicate of the finding "a NaN pivot is accepted" (see the report / known_findings): the value under
@@ -62,12 +62,13 @@ static void mk_cov(struct CovMat *A)
   Index sz = (d == 0) ? 0 : TAB(d + 1);
   __CPROVER_assume(0 <= sz && sz <= CVP_MAXSZ);          /* cvp_lemma_end */
   A->base.mem.sz = sz;
-  if (sz == 0) {
-    A->base.mem.rep = NULL;                              /* MemRep(0) */
-  } else {
-    A->base.mem.rep = malloc((size_t)sz * sizeof(Float));
-    __CPROVER_assume(A->base.mem.rep != NULL);
-  }
+  /* The block is allocated into a LOCAL pointer first and is never NULL: with `field = malloc(..)` or with a NULL
+     alternative CBMC's value sets fall back to byte-wise extraction for every `B[l]` / `p[l]` and the array theory
+     constraints explode (measured: > 16 GB).  The empty matrix (MemRep(0): rep == nullptr) is represented by an empty
+     object; cholDec returns before touching it (stated in the unit's assumptions). */
+  Float *m = malloc((size_t)sz * sizeof(Float));
+  __CPROVER_assume(m != NULL);
+  A->base.mem.rep = m;
 }
 //@ end
 
